@@ -12,6 +12,7 @@
 //!   P <dom> <i> <j> <eq> <cmp> <siphash equal> <hash stream equal>     eq: 0/1/P  cmp: L/E/G/P
 //!   S <dom> <gid> <n> <distinct dumps> <BTreeSet len|P> <HashSet len|P> <ids,...>
 //!   M <dom> <id> <kind>                  how the value was derived (base / neighbour kind), for the histogram
+//!   HW desc <id> <tokens...> / HC desc <id> <tokens...>   the Hasher calls of the warmed value / of a clone of the warmed value
 //!   WV desc <id> <warm==fresh> <cmp(warm,fresh)> <hash same> <clone(warm)==fresh> <clone(warm)==warm> <dump(clone(warm)) same> <hash(clone(warm)) same>
 //!   W desc <i> <j> <state> <eq> <cmp> <siphash equal>     the pair under a history: which operand had its spend-info
 //!        cache filled (script_pubkey()) before the comparison. state: LW left warmed, RW right warmed, BW both,
@@ -63,7 +64,7 @@ fn abbreviate(stream: &[String], pats: &[Vec<String>]) -> Vec<String> {
     'outer: while i < stream.len() {
         for (k, p) in pats.iter().enumerate() {
             if !p.is_empty() && i + p.len() <= stream.len() && stream[i..i + p.len()] == p[..] {
-                out.push(format!("k{}", k));
+                out.push(format!("k{}", k % N_KEYS)); // the pattern list may hold the full keys followed by the x-only keys
                 i += p.len();
                 continue 'outer;
             }
@@ -699,6 +700,66 @@ fn run_desc(w: &World, seed: u64, nbase: usize) -> Dom<Descriptor<Key>> {
         d.groups.push(ids);
     }
     mirror_family(w, &mut d);
+    // directed family for the Hash tie: multi vs sortedmulti, k / arity of thresh and multi, the three kinds of sh,
+    // tr without a tree / with a one-leaf tree / the same leaves in different shapes
+    {
+        let spk = |i: usize| T::un(Tg::Swap, T::pk(i));
+        let mk = |tg: Tg, k: u32, keys: Vec<usize>| T { tg, num: k, keys, kids: vec![] };
+        let th = |k: u32, kids: Vec<T>| T { tg: Tg::Thresh, num: k, keys: vec![], kids };
+        let scripts: Vec<T> = vec![
+            mk(Tg::Multi, 1, vec![0, 1]),
+            mk(Tg::SortedMulti, 1, vec![0, 1]),
+            mk(Tg::Multi, 2, vec![0, 1]),
+            mk(Tg::SortedMulti, 2, vec![0, 1]),
+            mk(Tg::Multi, 1, vec![0, 1, 2]),
+            mk(Tg::Multi, 1, vec![1, 0]),
+            th(1, vec![T::pk(0), spk(1)]),
+            th(2, vec![T::pk(0), spk(1)]),
+            th(1, vec![T::pk(0), spk(1), spk(2)]),
+            T::pk(0),
+        ];
+        let mut ids = Vec::new();
+        for t in &scripts {
+            if let Some((m, true)) = tree::build::<Segwitv0>(w, false, t) {
+                ids.extend(add(&mut d, Descriptor::new_wsh(m).ok(), "directed-wsh"));
+            }
+            if let Some((m, true)) = tree::build::<Segwitv0>(w, false, t) {
+                ids.extend(add(&mut d, Descriptor::new_sh_wsh(m).ok(), "directed-sh-wsh"));
+            }
+            if let Some((m, true)) = tree::build::<Legacy>(w, false, t) {
+                ids.extend(add(&mut d, Descriptor::new_sh(m).ok(), "directed-sh"));
+            }
+            if let Some((m, true)) = tree::build::<BareCtx>(w, false, t) {
+                ids.extend(add(&mut d, Descriptor::new_bare(m).ok(), "directed-bare"));
+            }
+        }
+        let tleaves: Vec<Arc<Miniscript<Key, Tap>>> = [
+            T::pk(1),
+            mk(Tg::MultiA, 1, vec![1, 2]),
+            mk(Tg::SortedMultiA, 1, vec![1, 2]),
+            mk(Tg::MultiA, 2, vec![1, 2]),
+            T::pk(2),
+            T::pk(3),
+        ]
+        .iter()
+        .filter_map(|t| tree::build::<Tap>(w, true, t).and_then(|(m, ok)| if ok { Some(Arc::new(m)) } else { None }))
+        .collect();
+        ids.extend(add(&mut d, Descriptor::new_tr(w.key(0, true), None).ok(), "directed-tr-no-tree"));
+        ids.extend(add(&mut d, Descriptor::new_tr(w.key(1, true), None).ok(), "directed-tr-no-tree"));
+        for l in &tleaves {
+            ids.extend(add(&mut d, Descriptor::new_tr(w.key(0, true), Some(TapTree::leaf(Arc::clone(l)))).ok(), "directed-tr-one-leaf"));
+        }
+        if tleaves.len() == 6 {
+            let three = [tleaves[0].clone(), tleaves[4].clone(), tleaves[5].clone()];
+            for shape in 0..3u64 {
+                ids.extend(add(&mut d, Descriptor::new_tr(w.key(0, true), tap_tree(&three, shape)).ok(), "directed-tr-shape"));
+            }
+        }
+        ids.sort();
+        ids.dedup();
+        d.all_pairs(&ids);
+        d.groups.push(ids);
+    }
     let n = d.vals.len();
     for _ in 0..(nbase * 4) {
         let (i, j, k) = (rng.below(n as u64) as usize, rng.below(n as u64) as usize, rng.below(n as u64) as usize);
@@ -811,7 +872,7 @@ fn mirror_family(w: &World, d: &mut Dom<Descriptor<Key>>) {
 }
 
 /// history (cache-state) observations on descriptor pairs, see the header comment
-fn emit_history(w: &World, d: &Dom<Descriptor<Key>>) {
+fn emit_history(w: &World, d: &Dom<Descriptor<Key>>, pats: &[Vec<String>]) {
     use std::str::FromStr;
     let reparse = |x: &Descriptor<Key>| -> Option<Descriptor<Key>> {
         let y = Descriptor::<Key>::from_str(&x.to_string()).ok()?;
@@ -856,6 +917,9 @@ fn emit_history(w: &World, d: &Dom<Descriptor<Key>>) {
                 b(ddump(w, c) == d.dumps[i]),
                 b(sip(c) == sip(x))
             );
+            // the Hasher calls of the warmed value and of the clone of the warmed value (cache filled)
+            println!("HW {} {} {}", d.name, i, abbreviate(&record(y), pats).join(" "));
+            println!("HC {} {} {}", d.name, i, abbreviate(&record(c), pats).join(" "));
         }
     }
     for &(i, j) in &d.pairs {
@@ -1339,9 +1403,11 @@ fn run_inner(args: &[String]) {
         }
     }
     let dd = run_desc(&w, seed, if thorough { 120 } else { 30 });
-    emit(&dd, &|x: &Descriptor<Key>| ddump(&w, x), &[], false);
-    emit_history(&w, &dd);
+    let mut both = pats(false);
+    both.extend(pats(true));
+    emit(&dd, &|x: &Descriptor<Key>| ddump(&w, x), &both, true);
+    emit_history(&w, &dd, &both);
     let (dc, ds) = run_pol(&w, seed, if thorough { 200 } else { 50 });
-    emit(&dc, &|x: &Concrete<Key>| cdump(&w, x), &[], false);
+    emit(&dc, &|x: &Concrete<Key>| cdump(&w, x), &pats(false), true);
     emit(&ds, &|x: &SemH| sdump(&w, &x.0), &[], false);
 }
